@@ -157,27 +157,37 @@ class Summ:
         the loop atom in any entry."""
         keys = []
         per_entry = []
+        KINDS = ('truth', 'some', 'cond', 'empty', 'is', 'shape', 'len', 'haskey', 'pat', 'educed')
         for atoms in entries:
-            after = []
-            seen = False
+            req = []
             for a in atoms:
-                if a[0] == 'loop' and a[1] == loop_id:
-                    seen = True
-                    continue
-                if a[0] == 'via' and a[1] == loop_id:
-                    seen = True
-                    continue
-                if seen and a[0] in ('truth', 'some', 'cond', 'empty', 'is', 'shape', 'len', 'haskey', 'pat'):
+                if a[0] in KINDS:
                     k = a[:-1]
-                    after.append((k, a[-1]))
+                    req.append((k, a[-1]))
                     if k not in keys:
                         keys.append(k)
-            per_entry.append(after)
+            per_entry.append(req)
+        # conditions shared by all entries with the same value are constants of the whole group
+        const = [k for k in keys if all(any(kk == k for kk, v in req) for req in per_entry) and len(set(v for req in per_entry for kk, v in req if kk == k)) == 1]
+        keys = [k for k in keys if k not in const]
+        per_entry = [[(k, v) for k, v in req if k not in const] for req in per_entry]
+        # shape atoms of one base are mutually exclusive alternatives: treat each (base, shape) as its own boolean but
+        # skip assignments where two shapes of the same base are both true
+        self._shape_keys = [k for k in keys if k[0] == 'shape']
         out = {}
         if len(keys) > 10:
             return None, keys
         for bits in itertools.product((False, True), repeat=len(keys)):
             asg = dict(zip(keys, bits))
+            bases = {}
+            clash = False
+            for k in self._shape_keys:
+                if asg[k]:
+                    if k[1] in bases:
+                        clash = True
+                    bases[k[1]] = k[2]
+            if clash:
+                continue
             n = 0
             for req in per_entry:
                 if all(asg[k] == v for k, v in req):
